@@ -11,7 +11,7 @@ import (
 
 // C17.cmp — comparison closures handed to sort.Slice are strict weak orders on every ordering of their keys.
 
-var keyRe = regexp.MustCompile(`\*?[A-Za-z_][A-Za-z0-9_.]*\[i\][A-Za-z0-9_.]*`)
+var keyRe = regexp.MustCompile(`\**[A-Za-z_][A-Za-z0-9_.]*\[i\][A-Za-z0-9_.]*`)
 
 // comparator: a closure handed to sort.Slice / sort.SliceStable (less(i, j) bool, keys X[i].f / X[j].f) or to
 // slices.SortFunc / SortStableFunc (cmp(a, b) int, keys a.f / b.f). Both are read through lt(a, b).
@@ -81,6 +81,50 @@ func (cm comparator) keysOf(c *Ctx) []string {
 			}
 		}
 	}
+	if len(keySet) == 0 {
+		// the elements were first copied into locals (`a, b := list[i].pt, list[j].pt`): keys are fields of the
+		// local holding the first element; its partner holds the same expression of the second
+		first, second := map[string]string{}, map[string]string{}
+		for _, p := range probe {
+			for _, st := range p.stores {
+				v := st.val.v()
+				switch {
+				case strings.Contains(v, "[i]") && !strings.Contains(v, "[j]"):
+					first[st.addr] = v
+				case strings.Contains(v, "[j]") && !strings.Contains(v, "[i]"):
+					second[st.addr] = v
+				}
+			}
+		}
+		partner := map[string]string{}
+		for a, va := range first {
+			for b, vb := range second {
+				if strings.Replace(va, "[i]", "[j]", -1) == vb {
+					partner[a] = b
+				}
+			}
+		}
+		for a, b := range partner {
+			re := regexp.MustCompile(`\b` + regexp.QuoteMeta(a) + `\.[A-Za-z0-9_.]+`)
+			found := map[string]bool{}
+			for _, p := range probe {
+				for _, cd := range p.conds {
+					for _, k := range re.FindAllString(cd.expr, -1) {
+						found[k] = true
+					}
+				}
+				for _, r := range p.ret {
+					for _, k := range re.FindAllString(r.expr, -1) {
+						found[k] = true
+					}
+				}
+			}
+			for k := range found {
+				keySet[k] = true
+				localPartner[k] = b + k[len(a):]
+			}
+		}
+	}
 	var keys []string
 	for k := range keySet {
 		keys = append(keys, k)
@@ -89,12 +133,19 @@ func (cm comparator) keysOf(c *Ctx) []string {
 	return keys
 }
 
+// localPartner: for keys read through a local copy of the first element, the same key of the second element.
+var localPartner = map[string]string{}
+
 // lt evaluates "first sorts strictly before second" for concrete key values; eq3 = the three-way result is 0.
 func (cm comparator) lt(c *Ctx, keys []string, x, y []int64) (lt, eq3 bool) {
 	atoms := map[string]absVal{}
 	for i, k := range keys {
 		atoms[k] = intVal(x[i])
-		atoms[cm.other(k)] = intVal(y[i])
+		if p, ok := localPartner[k]; ok {
+			atoms[p] = intVal(y[i])
+		} else {
+			atoms[cm.other(k)] = intVal(y[i])
+		}
 	}
 	outs := (&explorer{c: c, f: cm.f, atoms: atoms, canon: cm.canon}).explore(nil)
 	fn := c.fname(cm.f)
